@@ -11,7 +11,7 @@ CHECKS = {
     "C20": ("exploration", "bounded exhaustive enumeration of short strings and colliding tuples through the real derivation code",
             "Every string of length <=4 (thorough <=5) over an 11-symbol alphabet plus the keyword table goes through each name-derivation "
             "function; every colliding pair / invented-suffix triple of short strings is placed in each namespace (properties, parameters, schemas, enum members, "
-            "operationIds of one client - untagged and under several spellings of its tag -, tag spellings deriving one module) through the real "
+            "operationIds of one client - untagged and under several spellings of its tag -, tag spellings deriving one module; method names the generator derives itself from paths / FastAPI ids under each naming strategy, and two-tag layouts) through the real "
             "generator and read back with ast. Exhaustive within the bound; right level because the counterexamples are short, specific strings.",
             "Trusts CPython's str.isidentifier/keyword tables and ast/compile as the judge of identifiers; strings outside the alphabet/length bound are not covered.",
             "4 C20"),
@@ -72,7 +72,7 @@ CHECKS = {
             "Tag normalisation (case/punctuation variants are one tag) is re-implemented in the oracle; more than 4 operations per document are outside the bound.",
             "4 C07"),
     "C04": ("exploration", "bounded exhaustive enumeration of operation shapes x every subset of optional arguments x value sets; generated client driven against an in-memory server and compared with a reference wire model",
-            "Every operation shape of the bounded space (single parameters over location x required x kind, name styles, pairs of location classes, every body kind incl. multiple "
+            "Every operation shape of the bounded space (single parameters over location x required x kind, name styles, pairs of location classes (thorough: every pair of location x required x kind shapes, every body kind x every parameter class, the full 2^n per-argument value product), every body kind incl. multiple "
             "content types, all methods, path templates, path-item vs operation declaration) is called with every subset of its optional arguments and two value sets; the captured "
             "httpx.Request must be exactly one request with the right method, substituted path, each supplied parameter under its spec name in its location, omitted optionals absent, "
             "and a body whose content type and content equal the serialised argument.",
@@ -85,13 +85,13 @@ CHECKS = {
             "Instance menus have 1-3 bodies per content kind; streams 1 and 3 items x 3 chunkings; harness-side re-serialisation defines equality.",
             "4 C05"),
     "C06": ("exploration", "exhaustive status sweep: every declared-response set of size<=3 x every status 100..599 outside 2xx x 2 transports, driven through generated methods",
-            "For each declared-response set of size<=3 over {200,204,302,404,422,499,500,520,default,default+content}, built inline and through components/responses $refs, the generated method is called once per non-2xx status 100..599 (400 "
+            "For each declared-response set of size<=3 over {200,204,302,404,422,499,500,520,default,default+content} (with default listed last and first), built inline and through components/responses $refs, and for two-tag operations through either tag client, the generated method is called once per non-2xx status 100..599 (400 "
             "statuses) through the bundled HttpxTransport and through a custom transport that returns responses unraised; each call must raise an instance of the package's HTTPError "
             "carrying the status and the response, ClientError for 4xx and ServerError for 5xx. The status dimension is covered completely.",
             "The server body is one fixed JSON object; operations whose package cannot be imported are reported under an `unimportable` clause.",
             "4 C06"),
     "C03": ("exploration", "bounded exhaustive enumeration of generated models x every document of their finite instance menus; structure/unstructure with the package's own converter in the runtime-only interpreter",
-            "Every model of the field space (33 property kinds x required x default, kinds x 12 name styles, pairs of kinds, pairs of name styles, colliding-name families "
+            "Every model of the field space (property kinds x required x default, kinds x name styles, pairs of kinds, pairs of name styles, colliding-name families, every kind nested through a reference / array / map of a second model, unions without discriminator "
             "with every required pattern) x every document of its instance menu (per property absent / 2 typical / 1 edge value, all combinations) is structured into the "
             "generated class and unstructured again by the package's bundled converter; the JSON must come back equal (absent optional may become null/[]/{}/declared "
             "default; date-times compared as instants) and the Meta key maps must be inverse bijections onto the spec's property names.",
@@ -99,13 +99,13 @@ CHECKS = {
             "4 C03"),
     "C14": ("exploration", "bounded exhaustive enumeration of ordered variant selections x discriminator modes x positions x every conforming payload; decode/encode with the package's own converter",
             "Every ordered selection of 2..3 variants from a 9-variant menu (subset-related, overlapping and all-optional objects, string, integer, array, map), with and without "
-            "discriminator (explicit mapping / implicit), nullable and anyOf variants, in alias / field / list-item position, is generated; every conforming payload of every "
+            "discriminator (explicit mapping / implicit), nullable and anyOf variants, in alias / field / list-item / named-array-schema position, is generated; every conforming payload of every "
             "variant (plus unmapped discriminator values and invalid payloads of a mapped variant) is decoded and re-encoded; no key or value of the payload may be lost, a "
             "discriminator must select exactly the mapped class and errors must be reported instead of guessed.",
             "Each discriminated union has its own variant schemas (the generator rewrites a variant's discriminator property per union). Unions of more than 3 (thorough 4) variants are outside the bound.",
             "4 C14"),
     "C16": ("model_checking", "bounded exhaustive type-tree / instance enumeration on pristine converters + explicit-state exploration of all operation histories of length<=3 on one shared converter + exhaustive small object graphs for the serialiser",
-            "Laws: every root dataclass over type trees of depth<=2 (thorough 3) x 4 wire-key map variants x instance menus, each on a pristine copy of the bundled converter module: "
+            "Laws: every root dataclass over type trees of depth<=2 (thorough 3) x 5 wire-key map variants x instance menus, plus 108 recursive type cases (self / mutual cycles through list, dict, optional, direct edges x which class is met first x decode- or encode-first), each on a pristine copy of the bundled converter module: "
             "encode(decode(j))==j, decode(encode(x))==x, wrong-typed/missing leaves are ValueErrors naming the field. History: every sequence of <=3 structure/unstructure "
             "operations over 5 types (nested pair, wrapper class with its own hooks, Union, renamed class) on one converter, last result compared with a pristine converter "
             "(the converter is a global mutated on first use - a state machine whose histories are enumerated). Serialiser: every object graph over <=2/3 dataclass/list/dict "
@@ -113,7 +113,7 @@ CHECKS = {
             "Pristine converter = the module source executed under a fresh name; leaf menus have 2 values; str/bool/bytes coercions are not demanded to fail.",
             "4 C16"),
     "C17": ("exploration", "exhaustive enumeration of plugin sequences (<=3 from 9 instances, direct and composite) x header sources x caller arguments through the real HttpxTransport, compared with a reference pipeline model",
-            "Every ordered sequence of <=3 plugins out of 9 instances (820 sequences; thorough <=4) x transport defaults x per-request headers (str, Enum member, int) x caller "
+            "Every ordered sequence of <=3 plugins out of 9 instances (820 sequences; thorough <=4), as a flat composite and as composites nested inside a composite, x transport defaults x per-request headers (str, Enum member, int) x caller "
             "params/json/cookies (incl. falsy bodies) x bearer_token, three requests per transport, "
             "is sent through the real HttpxTransport over httpx.MockTransport; the captured request must carry per-request headers over defaults, each plugin's contribution in "
             "composition order, API keys in their configured location/name, the caller's params/body/cookies unchanged, nothing of an earlier request and no credential the configuration does not call for.",
@@ -147,7 +147,7 @@ CHECKS = {
             "Hash seed, process history, wall clock and output root are the owned nondeterminism sources; id()-derived names are covered through fresh-vs-warm processes.",
             "4 C09"),
     "C15": ("exploration", "complete position x payload matrix through the real generator; AST-skeleton comparison against the benign twin + evaluation of meaning-carrying literals",
-            "Every one of 30 text-bearing positions of a reference document x every payload of a 38-entry hostile dictionary (quotes, triple quotes, backslashes, line "
+            "Every one of 35 text-bearing positions of a reference document x every payload of a 57-entry hostile dictionary (quotes, triple quotes, backslashes, line "
             "terminators incl. CR/NEL/LS, control characters, non-ASCII, emoji, keyword, long lines and long+special combinations) is generated; every emitted file must "
             "parse and compile, its tree of AST node types must equal that of the benign twin (class/module members and dict entries as multisets), and enum values, wire "
             "keys, parameter names, defaults and discriminator values must evaluate to exactly the original strings. Thorough adds all strings of length<=3 over 4 "
